@@ -1,6 +1,8 @@
 #!/bin/sh
 # tools/runall.sh: runs every claimed check (quick tier) and prints its exit code; non-zero if any is non-zero.
 cd /verif; rc=0
+# the unchanged tree is the reference for the rename tolerance: refresh the recorded variable lists first
+[ -z "$(git -C /repo status --porcelain)" ] && tools/update_bindings.sh >/dev/null 2>&1
 for p in $(python3 -c "import json;print(' '.join(c['property_id'] for c in json.load(open('MANIFEST.json'))['checks']))"); do
   ./check $p > out/last_$p.log 2>&1; r=$?; printf "%s exit=%s  %s\n" $p $r "$(tail -1 out/last_$p.log | cut -c1-150)"; [ $r -ne 0 ] && rc=1
 done
